@@ -829,6 +829,17 @@ func (e *Engine) entryValue(st *State, obj *MapObj, key string) Value {
 	if name == "" {
 		name = fmt.Sprintf("map%d", e.nextID())
 	}
+	if sh, ok := e.entryShapes[name]; ok && strings.HasPrefix(sh, "slice") {
+		if sl, ok := obj.Typ.Elem().Underlying().(*types.Slice); ok {
+			var n int
+			fmt.Sscanf(sh[5:], "%d", &n)
+			elems := make([]Value, n)
+			for j := range elems {
+				elems[j] = e.symbolicOf(st, sl.Elem(), fmt.Sprintf("%s[%s].%d", name, key, j), 0)
+			}
+			return VSlice{Cell: e.newCell(st, VStruct{elems}), Lo: 0, Hi: n}
+		}
+	}
 	return e.symbolicOf(st, obj.Typ.Elem(), name+"["+key+"]", 0)
 }
 
